@@ -208,11 +208,14 @@ func auditRaw(raw map[string][]byte, vers map[int64]*VerState, checkFields bool)
 			if st8.Root != nil {
 				return st, &AuditErr{"mismatch", fmt.Sprintf("version %d: empty root marker but model non-empty", v)}
 			}
-		case val[0] == 's' && len(val) == 13:
+		case val[0] == 's' && (len(val) == 13 || len(val) == 9):
 			reach[rk] = true
 			st.RefRoots++
 			if st8.Root == nil {
 				return st, &AuditErr{"mismatch", fmt.Sprintf("version %d: reference root but model empty", v)}
+			}
+			if len(val) == 9 { // reference written before lazy pruning: 's' + version, nonce 1 implied
+				val = append(append([]byte{}, val...), 0, 0, 0, 1)
 			}
 			rv, rn := unNK(string(val))
 			if e := walk(rv, rn, st8.Root); e != nil {
